@@ -1208,7 +1208,8 @@ class LineCoverageInstrumentation(transformer.LineCoverageInstrumentationAdapter
         Returns:
             True if the line should be instrumented, False otherwise.
         """
-        return instr.lineno != lineno
+        # Some instructions (e.g., the cleanup of a generator) belong to no line
+        return isinstance(instr.lineno, int) and instr.lineno != lineno
 
     def visit_node(  # noqa: D102
         self,
@@ -1287,7 +1288,8 @@ class CheckedCoverageInstrumentation(transformer.CheckedCoverageInstrumentationA
         Returns:
             True if the line should be instrumented, False otherwise.
         """
-        return instr.lineno != lineno
+        # Some instructions (e.g., the cleanup of a generator) belong to no line
+        return isinstance(instr.lineno, int) and instr.lineno != lineno
 
     def visit_node(  # noqa: D102
         self,
